@@ -171,6 +171,32 @@ def attr_memos(minfo, cname):
                             validated |= attr_reads(ast.Module(body=[s], type_ignores=[]), methods)
                 am = AttrMemo(cname, mname, c, f, n, deps, validated)
                 am.companions = companions
+                # parameters of the method that the stored value depends on (read by the filling statements, their tests included)
+                params = set(a.arg for a in f.args.args[1:] + f.args.kwonlyargs)
+                used = set(x.id for s_ in (stmts or [n]) for x in ast.walk(s_) if isinstance(x, ast.Name) and x.id in params and isinstance(x.ctx, ast.Load))
+                # locals derived from parameters inside the method count as the parameter
+                for s_ in ast.walk(f):
+                    if isinstance(s_, ast.Assign) and isinstance(s_.targets[0], ast.Name):
+                        src = set(x.id for x in ast.walk(s_.value) if isinstance(x, ast.Name) and x.id in params)
+                        if src and any(isinstance(x, ast.Name) and x.id == s_.targets[0].id and isinstance(x.ctx, ast.Load) for y in (stmts or [n]) for x in ast.walk(y)):
+                            used |= src
+                am.param_deps = used
+                am.param_validated = set()
+                if used:
+                    # parameters the reuse test validates: through data or control dependence of the values it compares
+                    from .dfa import ReachingDefs
+                    rd = ReachingDefs(f)
+                    rd.control = True
+                    for g in tests_attr[c]:
+                        for x in ast.walk(g.test):
+                            if not isinstance(x, ast.Name) or x.id == 'self':
+                                continue
+                            nid = rd.node_of_ast(x)
+                            if nid is None:
+                                continue
+                            for lf in rd.leaves(x, nid):
+                                if len(lf) >= 2 and lf[0] == 'param' and lf[1] in params:
+                                    am.param_validated.add(lf[1])
                 out.append(am)
     return out
 
